@@ -43,6 +43,7 @@ func TestStoreFaults(t *testing.T) {
 	specs := []*pools.Spec{
 		pools.Distributed("10.0.0.0/29", 32, false, 0), pools.Distributed("2001:db8::/126", 128, false, 0),
 		pools.Distributed("10.0.0.0/29", 32, true, 1), pools.Distributed("10.0.0.0/29", 32, true, 2),
+		pools.DistributedMAC("10.0.0.0/29", 32, false, 0), pools.DistributedMAC("10.0.0.0/29", 32, true, 1),
 		pools.PoolAlloc("10.0.0.0/29", 32), pools.PoolAlloc("2001:db8::/62", 64),
 		pools.Bitmap("10.0.0.0/30", 32), pools.Epoch("10.0.0.0/29", 32, 1), pools.Epoch("10.0.0.0/28", 30, 1),
 	}
@@ -250,7 +251,12 @@ func TestRestartAtEveryStoreOp(t *testing.T) {
 					before := len(st.Snaps)
 					switch s.K {
 					case "alloc":
-						a.Allocate(bg, s.Sub)
+						if hi%2 == 1 { // the DHCP entry point
+							a.AllocateWithMAC(bg, s.Sub, net.HardwareAddr{2, 0, 0, 0, 0, s.Sub[len(s.Sub)-1]})
+							run.Count("alloc_with_mac", 1)
+						} else {
+							a.Allocate(bg, s.Sub)
+						}
 					case "release":
 						a.Release(bg, s.Sub)
 					case "renew":
@@ -449,7 +455,12 @@ func TestRemoteChanges(t *testing.T) {
 				pending = pending[:0]
 				switch x := rng.IntN(10); {
 				case x < 6:
-					nodes[ni].Allocate(bg, sub)
+					if i%2 == 1 {
+						nodes[ni].AllocateWithMAC(bg, sub, net.HardwareAddr{2, 0, 0, 0, 0, sub[len(sub)-1]})
+						run.Count("alloc_with_mac", 1)
+					} else {
+						nodes[ni].Allocate(bg, sub)
+					}
 					trace = append(trace, fmt.Sprintf("n%d.alloc(%s)", ni, sub))
 				case x < 8:
 					nodes[ni].Release(bg, sub)
